@@ -29,7 +29,8 @@ RULE = ("exhaustive: every string key of length <= 3 over the 23-character hosti
 TRUSTED = ["ast.literal_eval is modelled on the sub-language reachable from rendered paths (prefixed quoted strings, signed decimal ints / point floats "
            "with underscores, None/True/False, Python's white-space rules); other inputs make the model answer 'unsupported' and are counted, not compared",
            "ChildRelationship.stringify_param's repr/literal_eval_extended self-check, numpy / dataclass / custom-object keys and attribute (GETATTR) "
-           "rendering are not modelled; bytes dict keys make the printer raise TypeError and are outside the universe"]
+           "rendering are not modelled; bytes dict keys (printed since /repo 0fac13b) are outside the property's quantifier: compared with the model, "
+           "their round-trip failures (repr with a backslash escape) are counted and not reported"]
 ASSUMPTIONS = ["keys are atoms of Base/Value.v: str (any code points), int, half-integer float with |x| < 2^52, None, bool; list/tuple indexes are naturals",
                "the objects are tree shaped; Python ints are printed in full (no int_max_str_digits limit)"]
 
